@@ -566,7 +566,7 @@ class Exec:
                     if self.kind == 'S' or isconst or self.f['name'].startswith('Append'):
                         a = self.new_in(dict(lv=var, kind='text', cxx='const char *', name=loc.name, arr=None))
                         loc.val = TextV(a)
-                        c.sig.params.append(('text', var, base))
+                        c.sig.params.append(('text' if isconst else 'textnc', var, base))
                     else:
                         loc.val = BufV(loc)
                         j = self.new_out(dict(lv=var, kind='text', cxx='char *', name=loc.name, size=None))
@@ -582,6 +582,7 @@ class Exec:
             c.sig.params.append(('val', var, base))
             direction = 'in' if (self.kind == 'S' or not isref or isconst) else 'out'
             self.bind_leaf(loc, ty, var, direction, loc.name, base)
+        c.sig.complete = True
 
     def bind_leaf(self, loc, ty, lv, direction, name, cxx):
         c = self.c
@@ -659,6 +660,8 @@ class Exec:
             if bl.ty == ('msg',):
                 l = Loc(('msgfield', n['name']), n['name'])
                 return l
+            if bl.ty[0] == 'bitsof':
+                return self.bit_loc(bl, n['name'])
             if bl.fields is None:
                 # a local record: create fields lazily
                 if bl.ty[0] == 'rec':
@@ -666,6 +669,14 @@ class Exec:
                 else:
                     raise Untr('member of a non-record')
             nm = n['name']
+            if bl.ty[0] == 'bitsof':
+                return self.bit_loc(bl, nm)
+            if nm not in bl.fields and bl.ty[0] == 'rec' and 'unnamed struct' in n.get('type', {}).get('qualType', ''):
+                store = [f for f in bl.fields.values() if f.ty[0] == 'int']
+                if self.w.records[bl.ty[1]].get('tagUsed') == 'union' and len(store) == 1:
+                    l = Loc(('bitsof', bl.ty[1], store[0]), bl.name + '.' + nm)
+                    bl.fields[nm] = l
+                    return l
             if nm not in bl.fields:
                 fty = self.w.typeof(n)
                 fl = Loc(fty, bl.name + '.' + nm)
@@ -679,7 +690,36 @@ class Exec:
             return self.lvalue(n['inner'][0])
         raise Untr('lvalue %s' % k)
 
+    def bit_loc(self, bl, nm):
+        """bit-field member of the anonymous struct that shares storage with the integer member of a union (little endian, LSB first)"""
+        rec = self.w.records[bl.ty[1]]
+        for sub in rec.get('inner', []):
+            if sub.get('kind') == 'CXXRecordDecl' and not sub.get('name'):
+                off = 0
+                for fd in sub.get('inner', []):
+                    if fd.get('kind') != 'FieldDecl':
+                        continue
+                    if not fd.get('isBitfield'):
+                        break
+                    wd = None
+                    for x in fd.get('inner', []):
+                        wd = const_of_node(x) if wd is None else wd
+                    if wd is None:
+                        break
+                    if fd.get('name') == nm:
+                        store = bl.ty[2]
+                        if off + wd > store.ty[1].w:
+                            break
+                        l = Loc(('bits', store, off, wd, self.w.resolve(fd['type'].get('desugaredQualType') or fd['type']['qualType'])[1]), bl.name + '.' + nm)
+                        return l
+                    off += wd
+        raise Untr('bit-field %s' % nm)
+
     def read_loc(self, loc):
+        if loc.ty[0] == 'bits':
+            _, store, off, wd, ct = loc.ty
+            sv = self.read_loc(store)
+            return IntV(('And', mk_shift('Shr', sv.e, ('Const', off)), ('Const', (1 << wd) - 1)), ct)
         if loc.val is None and loc.inarg is not None:
             a = loc.inarg()
             loc.inarg = None
@@ -691,6 +731,16 @@ class Exec:
 
     def assign(self, loc, v):
         c = self.c
+        if loc.ty[0] == 'bits':
+            _, store, off, wd, ct = loc.ty
+            if not isinstance(v, IntV):
+                raise Untr('bit-field assignment')
+            mask = (1 << wd) - 1
+            old = self.read_loc(store)
+            keep = mk_bin('And', old.e, ('Const', store.ty[1].hi() & ~(mask << off)))
+            new = mk_shift('Shl', mk_bin('And', v.e, ('Const', mask)), ('Const', off))
+            self.assign(store, IntV(mk_bin('Or', keep, new), store.ty[1]))
+            return
         if loc.ty[0] == 'msgfield':
             f = loc.ty[1]
             if f == 'Priority':
@@ -799,6 +849,9 @@ class Exec:
                 callee = callee['inner'][0]
             if callee.get('referencedDecl', {}).get('name') == 'operator=' and len(n['inner']) == 3:
                 loc = self.lvalue(n['inner'][1])
+                m = self.w.funcs.get(callee['referencedDecl']['id'])
+                if m is not None and not m.get('isImplicit') and loc.ty[0] == 'rec':
+                    return self.inline(m, [n['inner'][2]], this=loc)
                 if loc.ty[0] == 'rec':
                     return self.assign_record(loc, n['inner'][2])
             raise Untr('operator call')
@@ -1803,6 +1856,122 @@ def translate_all(world, order):
     return fns
 
 
+# ------------------------------------------------------------------------------------------------ signatures for harness / meta
+def ct_json(ct):
+    return {'w': ct.w, 's': ct.s, 'b': ct.b, 'enum': ct.enum}
+
+
+def size_json(sz):
+    if sz is None:
+        return None
+    e = sz
+    while e[0] == 'Cast':
+        e = e[3]
+    if e[0] == 'Const':
+        return {'const': e[1]}
+    if e[0] == 'Arg':
+        return {'arg': e[1]}
+    return {'expr': True}
+
+
+def fn_meta(world, fn):
+    sig = fn.ctx.sig if fn.ctx else (fn.sigctx.sig if getattr(fn, 'sigctx', None) else None)
+    d = {'id': fn.id, 'name': fn.cname, 'cxx': fn.name, 'kind': fn.kind, 'translated': fn.err is None, 'why': fn.err, 'qual': fn.qual,
+         'harness': False}
+    if sig is None:
+        return d
+    ins, outs = [], []
+    for x in sig.ins:
+        e = {'kind': x['kind'], 'name': x['name'], 'lv': x['lv'], 'cxx': x['cxx'], 'arr': x.get('arr'), 'inout': bool(x.get('inout'))}
+        if x['kind'] == 'int':
+            e['ct'] = ct_json(x['ct'])
+            if x['ct'].enum:
+                e['values'] = [v for _, v in world.enums[x['ct'].enum]['values']]
+        ins.append(e)
+    for x in sig.outs:
+        e = {'kind': x['kind'], 'name': x['name'], 'lv': x['lv'], 'cxx': x['cxx'], 'arr': x.get('arr'), 'size': size_json(x.get('size'))}
+        if x['kind'] == 'int':
+            e['ct'] = ct_json(x['ct'])
+        outs.append(e)
+    d['ins'], d['outs'] = ins, outs
+    d['params'] = [list(p) for p in sig.params]
+    if fn.ctx:
+        if fn.kind == 'S':
+            d['pgn'] = fn.ctx.pgn
+            d['prio'] = fn.ctx.prio
+        else:
+            d['pgn'] = fn.ctx.guard
+    d['harness'] = getattr(sig, 'complete', False) and all(not (o['kind'] == 'text' and (o['size'] is None or 'expr' in o['size'])) for o in outs) and fn.kind in ('S', 'P')
+    return d
+
+
+def cxx_harness(meta):
+    """the dispatch table of harness/h_msgs.cpp: one case per function, typed arguments from the tokens, outputs printed canonically"""
+    L = ['// GENERATED by tools/cxx2coq.py - do not edit', 'static bool call_fn(int fid, const std::vector<std::string> &a, tN2kMsg &M, std::string &out) {',
+         '  switch (fid) {']
+    for d in meta:
+        if not d['harness']:
+            continue
+        L.append('  case %d: { // %s' % (d['id'], d['name']))
+        L.append('    if (a.size() != %d) return false;' % len(d['ins']))
+        # declarations of the parameter variables
+        for kind, var, base in d['params']:
+            if kind in ('text', 'textnc'):
+                L.append('    const char *%s = 0;' % var)
+            elif kind == 'list':
+                L.append('    const unsigned long *%s = 0;' % var)
+            elif kind == 'buf':
+                L.append('    char *%s = 0; size_t %s_sz = 0;' % (var, var))
+            else:
+                L.append('    %s %s = %s();' % (base, var, base) if not re.search(r'[ *]', base) else '    %s %s = 0;' % (base, var))
+        inout = {x['lv'] for x in d['ins'] if x.get('inout')}
+        # output sentinels
+        for o in d['outs']:
+            if o['kind'] == 'int' and o['lv'] not in inout:
+                L.append('    %s = (%s)%d;' % (o['lv'], o['cxx'], 1 if (o['ct']['b'] or o['ct']['enum']) else 85))
+            elif o['kind'] == 'double':
+                L.append('    %s = 12345.0;' % o['lv'])
+            elif o['kind'] == 'text' and o.get('arr'):
+                L.append('    memset(%s, 0, sizeof(%s)); %s[0] = \'~\';' % (o['lv'], o['lv'], o['lv']))
+        # inputs
+        for i, x in enumerate(d['ins']):
+            if x['kind'] == 'int':
+                conv = 'argI' if x['ct']['s'] else 'argU'
+                L.append('    %s = (%s)%s(a[%d]);' % (x['lv'], x['cxx'], conv, i))
+            elif x['kind'] == 'double':
+                L.append('    %s = argD(a[%d]);' % (x['lv'], i))
+            elif x['kind'] == 'text' and x.get('arr'):
+                L.append('    { const char *t = argT(a[%d]); memset(%s, 0, sizeof(%s)); strncpy(%s, t, sizeof(%s) - 1); }' % (i, x['lv'], x['lv'], x['lv'], x['lv']))
+            elif x['kind'] == 'text':
+                L.append('    %s = argT(a[%d]);' % (x['lv'], i))
+            elif x['kind'] == 'list':
+                L.append('    %s = argL(a[%d]);' % (x['lv'], i))
+        # output text buffers
+        for o in d['outs']:
+            if o['kind'] == 'text' and not o.get('arr'):
+                sz = o['size']
+                szx = str(sz['const']) if 'const' in sz else d['ins'][sz['arg']]['lv']
+                L.append('    %s_sz = (size_t)(%s); %s = newbuf(%s_sz);' % (o['lv'], szx, o['lv'], o['lv']))
+        args = ', '.join(['M'] + [('(char *)' + v if k == 'textnc' else v) for k, v, _ in d['params']])
+        if d['kind'] == 'S':
+            L.append('    %s(%s);' % (d['cxx'], args))
+        else:
+            L.append('    bool r = %s(%s);' % (d['cxx'], args))
+            L.append('    outB(out, r);')
+            for o in d['outs']:
+                if o['kind'] == 'int':
+                    L.append('    out%s(out, (%s)%s);' % ('I' if o['ct']['s'] else 'U', 'long long' if o['ct']['s'] else 'unsigned long long', o['lv']))
+                elif o['kind'] == 'double':
+                    L.append('    outD(out, %s);' % o['lv'])
+                elif o['kind'] == 'text' and o.get('arr'):
+                    L.append('    outT(out, %s, sizeof(%s));' % (o['lv'], o['lv']))
+                else:
+                    L.append('    outT(out, %s, %s_sz);' % (o['lv'], o['lv']))
+        L.append('    return true; }')
+    L += ['  default: return false;', '  }', '}', '']
+    return '\n'.join(L)
+
+
 def load_world():
     world = World()
     for f in SRC_FILES:
@@ -1827,6 +1996,132 @@ def translate_world():
     return world, fns
 
 
+def norm_name(n):
+    return re.sub(r'[^a-z0-9.]', '', n.lower())
+
+
+def make_pairs(meta):
+    """setter/parser pairs of the same PGN whose parameters correspond by name.  A pair is `full` when every output of the
+    parser is fed by an argument of the setter and every argument of the setter comes back as an output."""
+    pairs = []
+    S = [d for d in meta if d['kind'] == 'S' and d.get('pgn') is not None and 'ins' in d]
+    P = [d for d in meta if d['kind'] == 'P' and d.get('pgn') is not None and 'outs' in d]
+    for s in S:
+        for p in P:
+            if p['pgn'] != s['pgn']:
+                continue
+            sin = {norm_name(x['name']): k for k, x in enumerate(s['ins'])}
+            m = []
+            for j, o in enumerate(p['outs']):
+                a = sin.get(norm_name(o['name']))
+                if a is not None and s['ins'][a]['kind'] == o['kind']:
+                    m.append((j, a))
+            if not m:
+                continue
+            full = len(m) == len(p['outs']) and {a for _, a in m} == set(range(len(s['ins'])))
+            base = bool(re.match(r'SetN2k(Maretron)?PGN\d+', s['cxx'])) and bool(re.match(r'ParseN2k(Maretron)?P[Gg][Nn]\d+', p['cxx']))
+            pairs.append({'s': s['id'], 'p': p['id'], 'sname': s['name'], 'pname': p['name'], 'pgn': s['pgn'], 'map': m, 'full': full, 'base': base,
+                          'translated': s['translated'] and p['translated']})
+    # keep, per function, the pairs that matter: all base x base pairs that are full or best; for an alias its best partner
+    def score(q):
+        return (q['full'], len(q['map']), q['base'])
+    keep = []
+    seen = set()
+    for q in pairs:
+        if q['base'] and (q['full'] or True):
+            best_for_s = max((r for r in pairs if r['s'] == q['s'] and r['base']), key=score)
+            if q is best_for_s or q['full']:
+                keep.append(q)
+                seen.add((q['s'], q['p']))
+    for d in meta:
+        if d['kind'] == 'S':
+            mine = [r for r in pairs if r['s'] == d['id']]
+        elif d['kind'] == 'P':
+            mine = [r for r in pairs if r['p'] == d['id']]
+        else:
+            continue
+        if not mine or any(((r['s'], r['p']) in seen) for r in mine if (r['s'] == d['id'] or r['p'] == d['id']) and ((r['s'], r['p']) in seen)):
+            continue
+        # prefer a base partner
+        best = max(mine, key=lambda r: (r['full'], len(r['map']), bool(re.search(r'PGN\d', r['pname' if d['kind'] == 'S' else 'sname'], re.I))))
+        keep.append(best)
+        seen.add((best['s'], best['p']))
+    keep.sort(key=lambda r: (r['s'], r['p']))
+    return keep
+
+
+def outsig_coq(f, o):
+    if o['kind'] == 'int':
+        for a, x in enumerate(f.ctx.sig.ins):
+            if x.get('inout') and x['lv'] == o['lv']:
+                return 'OIO %d' % a
+        return 'OI %d' % (1 if (o['ct'].b or o['ct'].enum) else 85)
+    if o['kind'] == 'double':
+        return 'OD'
+    return 'OT %s' % coq_e(o['size'])
+
+
+def gen_messages_v(fns, meta):
+    L = ['(* GENERATED by tools/cxx2coq.py from %s/src (clang AST) - do not edit.' % REPO,
+         '   One term of the field-level IR (Model/MsgIR.v) per SetN2k*/ParseN2k*/alias function; function ids are positions in source order. *)',
+         'From Coq Require Import ZArith List Bool.', 'From N2kV Require Import Model.MsgIR.', 'Import ListNotations.', 'Local Open Scope Z_scope.', '']
+    sl, pl, ul = [], [], []
+    for fn in fns:
+        if fn.err is not None:
+            ul.append(fn)
+            L.append('(* untranslated %d %s : %s *)' % (fn.id, fn.cname, fn.err.replace('*)', '* )').replace('(*', '( *')))
+            continue
+        c = fn.ctx
+        if fn.kind == 'S':
+            dest = 'None' if c.dest is None else '(Some %s)' % coq_e(c.dest)
+            L.append('Definition s_%s : setter := {| s_pgn := %d; s_prio := %s; s_dest := %s; s_body :=\n    %s |}.' % (fn.cname, c.pgn, zs(c.prio), dest, fn.coq))
+            sl.append(fn)
+        else:
+            g = 'None' if c.guard is None else '(Some %d)' % c.guard
+            L.append('Definition p_%s : parser := {| p_guard := %s; p_body :=\n    %s |}.' % (fn.cname, g, fn.coq))
+            pl.append(fn)
+        L.append('')
+    L.append('Definition all_setters : list (nat * setter) := [%s].' % ';\n  '.join('(%d%%nat, s_%s)' % (f.id, f.cname) for f in sl))
+    L.append('Definition all_parsers : list (nat * parser) := [%s].' % ';\n  '.join('(%d%%nat, p_%s)' % (f.id, f.cname) for f in pl))
+    L.append('Definition all_outsigs : list (nat * list outsig) := [%s].' % ';\n  '.join('(%d%%nat, [%s])' % (f.id, '; '.join(outsig_coq(f, o) for o in f.ctx.sig.outs)) for f in pl))
+    L.append('Definition untranslated_ids : list nat := [%s].' % '; '.join('%d%%nat' % f.id for f in ul))
+    L.append('Definition n_functions : nat := %d%%nat.' % len(fns))
+    return '\n'.join(L) + '\n'
+
+
+def main():
+    os.makedirs(GEN, exist_ok=True)
+    h = source_hash()
+    stamp = os.path.join(GEN, 'stamp-' + h)
+    outs = {'GenMessages.v': os.path.join(OUT, 'GenMessages.v'), 'GenObligations.v': os.path.join(OUT, 'GenObligations.v'),
+            'gen_msgs_dispatch.inc': os.path.join(GEN, 'gen_msgs_dispatch.inc'), 'msgs_meta.json': os.path.join(GEN, 'msgs_meta.json')}
+    cache = os.path.join(GEN, 'cache-' + h)
+    if os.path.isdir(cache) and all(os.path.exists(os.path.join(cache, k)) for k in outs):
+        for k, dst in outs.items():
+            write_if_changed(dst, open(os.path.join(cache, k)).read())
+        return json.load(open(outs['msgs_meta.json']))
+    world, fns = translate_world()
+    meta = [fn_meta(world, fn) for fn in fns]
+    pairs = make_pairs(meta)
+    files = {'GenMessages.v': gen_messages_v(fns, meta), 'gen_msgs_dispatch.inc': cxx_harness(meta)}
+    allmeta = {'functions': meta, 'pairs': pairs, 'source_hash': h, 'repo': REPO,
+               'enums': {k: v['values'] for k, v in sorted(world.enums.items())}}
+    files['GenObligations.v'] = gen_obligations_v(fns, meta, pairs, allmeta)
+    files['msgs_meta.json'] = json.dumps(allmeta, indent=0, sort_keys=True)
+    import shutil
+    for old in [d for d in os.listdir(GEN) if d.startswith('cache-')]:
+        shutil.rmtree(os.path.join(GEN, old), ignore_errors=True)
+    os.makedirs(cache, exist_ok=True)
+    for k, txt in files.items():
+        open(os.path.join(cache, k), 'w').write(txt)
+        write_if_changed(outs[k], txt)
+    return allmeta
+
+
+def gen_obligations_v(fns, meta, pairs, allmeta):
+    return '(* GENERATED by tools/cxx2coq.py - per-function obligations are added in a later stage *)\n'
+
+
 def debug_main():
     world, fns = translate_world()
     ok = [f for f in fns if f.err is None]
@@ -1843,5 +2138,13 @@ def debug_main():
                 print('outs', [(d['lv'], d['kind'], d.get('size')) for d in f.ctx.sig.outs])
 
 
-if __name__ == '__main__' and len(sys.argv) > 1 and sys.argv[1] == '--debug':
-    debug_main()
+if __name__ == '__main__':
+    if len(sys.argv) > 1 and sys.argv[1] == '--debug':
+        debug_main()
+    else:
+        m = main()
+        fl = m['functions']
+        print('functions %d translated %d pairs %d' % (len(fl), sum(1 for f in fl if f['translated']), len(m['pairs'])))
+        for f in fl:
+            if not f['translated']:
+                print('untranslated:', f['name'], '::', f['why'])
